@@ -9,7 +9,7 @@ PVT = 50
 LIFE_CREATE = {"call.create", "call.threads_create", "ret.threads_create", "hook.start", "hook.stop", "ret.create", "tcreate.starting", "tcreate.failed", "proc.enter",
                "proc.running", "proc.onstart", "proc.onstop", "proc.ptid0", "proc.stop", "proc.exit", "create.pvt_running"}
 LIFE_EVENTS = LIFE_CREATE | {"shutdown.cb", "shutdown.set", "sys.join0", "wait.joined", "destroy.free", "ret.destroy",
-                             "ret.shutdown_wait", "sys.close", "Crash", "Hang"}
+                             "ret.shutdown_wait", "sys.close", "Crash", "Hang", "call.attach_first", "ret.attach_first"}
 
 def build(d, san=None, compiler=None, opt="-O1"):
     compiler = compiler or ("clang" if san else "gcc")
